@@ -15,7 +15,7 @@ ASSUMPTIONS = [
     'the TexSoup package; necessary conditions from the statement: AssertionError needs \\begin or \\item in the input, '
     'EOFError needs \\begin, $, \\( or \\[',
     'hang detection: progress monitor on the tokenizer driver (every returned token is non-empty and advances the '
-    'cursor; at most len+1 tokens) plus a wall-clock watchdog of %d s per parse, re-run once before reporting',
+    'cursor; at most len+1 tokens) plus a CPU-time watchdog of %d s per parse (process CPU time, so machine load cannot turn a slow parse into a hang), re-run with twice the limit before reporting',
     'the interpreter recursion limit is the default (1000) while parsing',
 ]
 WATCHDOG_S = 10
@@ -59,7 +59,7 @@ def setup():
 
     def on_alarm(signum, frame):
         raise Hang()
-    signal.signal(signal.SIGALRM, on_alarm)
+    signal.signal(signal.SIGVTALRM, on_alarm)
     return _STATE
 
 
@@ -67,12 +67,12 @@ def run_parse(src, tol, limit=WATCHDOG_S):
     st = setup()
     st['budget'][0] = 0
     st['budget'][1] = len(src) + 1
-    signal.setitimer(signal.ITIMER_REAL, limit)
+    signal.setitimer(signal.ITIMER_VIRTUAL, limit)
     try:
         r = st['TexSoup'](src, tolerance=tol)
         return ('ok', None, r)
     except Hang:
-        return ('hang', 'no result within %d s' % limit, None)
+        return ('hang', 'no result within %d s of CPU time' % limit, None)
     except NoProgress as e:
         return ('noprogress', str(e), None)
     except BaseException as e:
@@ -80,7 +80,7 @@ def run_parse(src, tol, limit=WATCHDOG_S):
             raise
         return ('exc', e, None)
     finally:
-        signal.setitimer(signal.ITIMER_REAL, 0)
+        signal.setitimer(signal.ITIMER_VIRTUAL, 0)
 
 
 def judge(src, tol):
